@@ -35,6 +35,7 @@ type HarnessSpec struct {
 	AllowCuts  bool           `json:"allow_cuts"`
 	NoReplay   bool           `json:"no_replay"`
 	TimeoutSec int            `json:"timeout_s"`
+	ForbidEv   []string       `json:"forbid_events"` // a path recording an event containing one of these substrings is a violation
 	Logic      string         `json:"logic"` // e.g. QF_UFBV: lets z3 pick its bit-vector tactics (only for harnesses without Int terms)
 }
 
@@ -341,6 +342,7 @@ func (rc *runCtx) runSpec(specPath string, evPath string) int {
 		eng.maxSteps = pick(hs.MaxSteps, 3000000)
 		eng.maxBranches = pick(hs.MaxBranch, 600)
 		eng.logic = hs.Logic
+		eng.forbidEvents = hs.ForbidEv
 		eng.allMapOrders = hs.MapOrders
 		eng.ignoreGo = hs.IgnoreGo
 		eng.collisionFree = map[string]bool{}
@@ -726,11 +728,14 @@ func TestZZReplay(t *testing.T) {
 	cmd.Env = append(os.Environ(), "GOFLAGS=-mod=mod", "GOPROXY=off", "GOSUMDB=off", "GOTOOLCHAIN=local", "ZZSYM_REPLAY="+replayPath)
 	out, _ := cmd.CombinedOutput()
 	s := string(out)
+	if v.Kind == "assert" && strings.Contains(s, "ZZSYM-ASSERT-FAILED "+v.Msg) {
+		// (the native run continues after a failed assertion; a later failed Assume is irrelevant)
+		if i, j := strings.Index(s, "ZZSYM-ASSERT-FAILED "+v.Msg), strings.Index(s, "ZZSYM-ASSUME-FAILED"); j < 0 || i < j {
+			return true, s
+		}
+	}
 	if strings.Contains(s, "ZZSYM-ASSUME-FAILED") {
 		return false, "replay violated a harness assumption:\n" + tail(s, 2000)
-	}
-	if v.Kind == "assert" && strings.Contains(s, "ZZSYM-ASSERT-FAILED "+v.Msg) {
-		return true, s
 	}
 	if v.Kind == "panic" && (strings.Contains(s, "ZZSYM-PANIC") || strings.Contains(s, "panic:") || strings.Contains(s, "fatal error:")) {
 		return true, s
